@@ -633,8 +633,9 @@ func (c *handlerCtx) handleReply() {
 		}
 		c.callCmd.result = c.input.Body()
 		c.stat = c.callCmd.stat
-		c.callCmd.done()
+		// before done(): CostTime() reads the cost as soon as the call is done
 		c.callCmd.cost = time.Duration(c.sess.timeNow() - c.callCmd.start)
+		c.callCmd.done()
 		if enablePrintRunLog() {
 			c.sess.printRunLog(c.RealIP(), c.callCmd.cost, c.input, c.callCmd.output, typeCallLaunch)
 		}
